@@ -188,7 +188,7 @@ package routing
 //@   panics allowed
 //@   requires inflows.len == laterals.len && inflows.len == rainfall.len && inflows.len == evap.len && inflows.len == outflows.len && inflows.len == storages.len
 //@   requires forall(t, 0, inflows.len, inflows.at(t) >= 0 && laterals.at(t) >= 0)
-//@   requires abs(bias) < 0.001 && k >= 0 && 0 < x && x <= 1 && area >= 0 && deadStorage >= 0 && deltaT > 0
+//@   requires abs(bias) < 0.001 && k >= 0 && 0 < x && x <= 1 && area >= 0 && deadStorage >= 0 && deltaT > 0 && s >= 0 && prevOutflow >= 0
 //@   assigns outflows.cells, storages.cells
 //@   loop 0 invariant 0 <= i && i <= n
 //@   loop 0 invariant implies(i < n, inflows.at(i) >= 0 && laterals.at(i) >= 0)
